@@ -234,6 +234,22 @@ TruncBody(s, t) ==
                !.bytes = Replace(SubSeq(s.bytes, 1, t), lf.off, 4, Int32(t - s.hs))]
 WellFormed(s) == [s EXCEPT !.t = "case", !.mk = "wellformed", !.fields = <<>>]
 
+\* ------------------------------------------------------------------ nested type descriptors
+\* A column type that nests d constructors and then ends: every tuple / UDT level announces 65535
+\* elements ([short], so no single count is "huge") of which only the first is present.
+BombUnit(k) == CASE k = "tuple" -> Short(49) \o Short(65535)
+                 [] k = "udt" -> Short(48) \o Short(0) \o Short(0) \o Short(65535) \o Short(0)
+                 [] k = "list" -> Short(32)
+                 [] k = "map" -> Short(33) \o Short(9)
+RECURSIVE Rep(_, _)
+Rep(u, d) == IF d = 0 THEN <<>> ELSE u \o Rep(u, d - 1)
+BombFrame(k, d) ==
+  LET b == Int32(2) \o Int32(0) \o Int32(1) \o WString(S_ks1) \o WString(S_t1) \o WString(S_a) \o Rep(BombUnit(k), d)
+  IN Header(4, 0, 1, 8, Len(b)) \o b
+BombDepths == IF Tier = "thorough" THEN {1, 4, 16, 64, 256, 1024} ELSE {1, 16, 128}
+BombCase(k, d) == [Blank EXCEPT !.t = "case", !.fam = "TYPENEST", !.kind = "RESULT_ROWS", !.v = 4, !.ncols = 1, !.mk = "nest-" \o k,
+                                !.f = "type.nesting", !.val = d, !.bytes = BombFrame(k, d)]
+
 \* (one disjunct per family: the parameter records of different families have different shapes)
 MInit == \/ \E q \in SimpleParams : Selected(q) /\ p = MkBase(q)
          \/ \E q \in ErrParams : Selected(q) /\ p = MkBase(q)
@@ -242,6 +258,7 @@ MInit == \/ \E q \in SimpleParams : Selected(q) /\ p = MkBase(q)
          \/ \E q \in TypeParams : Selected(q) /\ p = MkBase(q)
          \/ \E q \in RowsParams : Selected(q) /\ p = MkBase(q)
          \/ \E q \in PrepParams : Selected(q) /\ p = MkBase(q)
+         \/ \E k \in {"tuple", "udt", "list", "map"}, d \in BombDepths : Part \in {0, 4} /\ p = BombCase(k, d)
 MNext ==
   /\ p.t = "base"
   /\ \/ p' = WellFormed(p)
